@@ -135,9 +135,16 @@ func (s *state) unmarshal(data []byte, fixItem fix.Item) error {
 		}
 
 		cnt := noKv.Value.Value().(int)
-		startNoTag := bytes.Index(data, append([]byte(noKv.Key), '='))
-		if startNoTag == -1 {
-			return nil
+		// The count field is recognised only where a field starts: at the
+		// beginning of the data or right after a delimiter.
+		noTagPrefix := append([]byte(noKv.Key), '=')
+		startNoTag := 0
+		if !bytes.HasPrefix(data, noTagPrefix) {
+			startNoTag = bytes.Index(data, append([]byte{fix.Delimiter[0]}, noTagPrefix...))
+			if startNoTag == -1 {
+				return nil
+			}
+			startNoTag++
 		}
 
 		startFirstFieldTag := bytes.Index(data[startNoTag:], fix.Delimiter)
